@@ -3,6 +3,7 @@ package checks
 import (
 	"fmt"
 	"sort"
+	"strings"
 	"testing"
 	"time"
 
@@ -356,7 +357,26 @@ func TestC23(t *testing.T) {
 
 func TestC24(t *testing.T) {
 	run := ev.NewRun("C24", "model_checking")
-	run.Assumptions = []string{"router: bka -> storage A (SQL parts), bkb -> storage B (filesystem parts), default -> storage C"}
+	run.Assumptions = []string{"router: bka -> storage A (SQL parts), bkb -> storage B (filesystem parts), default -> storage C",
+		"concurrent part: one cross-storage copy against one writer of its source; each database has its own modelled writer connection"}
+	// concurrent part first (small and bounded): a cross-storage copy against a writer of its source (c24_sched_test.go)
+	names := c24SchedNames
+	if quick() {
+		names = nil
+		for _, n := range c24SchedNames {
+			if strings.Contains(n, "dst=SQL") && !strings.Contains(n, "put+put") {
+				names = append(names, n)
+			}
+		}
+	}
+	var tot schedTotals
+	bound := 2
+	if !quick() {
+		bound = 3
+	}
+	schedFrac = 0.4
+	exploreScenarios(t, run, names, bound, &tot, c26Classify)
+	schedFrac = 1.0
 	s := &sx.Search{Run: run, TestRun: "^TestWorker$", Spec: sx.SpecByName("C24"), Depth: 3, Stacks: []string{world.StackSQL}, Seeds: [][]sx.Op{
 		{},
 		{{Kind: "CreateBucket", B: "bka"}, {Kind: "CreateBucket", B: "bkb"}, {Kind: "CreateBucket", B: "bkc"}, {Kind: "Put", B: "bka", K: "k1", Body: "P5"}},
@@ -366,7 +386,10 @@ func TestC24(t *testing.T) {
 	}
 	s.Explore()
 	s.Coverage()
-	fmt.Printf("C24: states=%d transitions=%d depth=%v\n", s.States, s.Transitions, s.DepthDone)
+	run.Cov["sched_executions"] = tot.Executions
+	run.Cov["sched_executions_per_scenario"] = tot.PerScen
+	run.Cov["sched_preemption_bound"] = tot.Bound
+	fmt.Printf("C24: states=%d transitions=%d depth=%v sched_executions=%d\n", s.States, s.Transitions, s.DepthDone, tot.Executions)
 	finish(t, run)
 }
 
